@@ -57,6 +57,14 @@ func NewPolynomial(basis Basis, coeffs interface{}, interval interface{}) Polyno
 				new(big.Float),
 			}
 		}
+	case []int64:
+		coefficients = make([]*Complex, len(coeffs))
+		for i, c := range coeffs {
+			coefficients[i] = &Complex{
+				new(big.Float).SetInt64(c),
+				new(big.Float),
+			}
+		}
 	case []complex128:
 		coefficients = make([]*Complex, len(coeffs))
 		for i, c := range coeffs {
